@@ -88,9 +88,46 @@ def gen_program(ctx, rng, n):
                                             "parent-is-file", "is-directory"]), "pos": rng.random()})
         else:
             prog.append({"op": "damage_bucket", "key": k,
-                         "how": rng.choice(["append-garbage", "append-badutf8", "flip", "truncate", "torn-tail", "nul-line"]),
+                         "how": rng.choice(["append-garbage", "append-badutf8", "flip", "truncate", "torn-tail", "nul-line"]
+                                           + FOREIGN_RECORDS),
                          "pos": rng.random()})
     return prog
+
+
+# records with a correct line checksum and valid JSON whose CONTENT is what another tool or a later version might
+# write: no reader may treat them differently from the other flavours' readers
+FOREIGN_RECORDS = ["foreign-unknown-algo", "foreign-empty-integrity", "foreign-integrity-options", "foreign-extra-field",
+                   "foreign-missing-optional", "foreign-float-size", "foreign-negative-size", "foreign-bad-base64",
+                   "foreign-integrity-number", "foreign-key-mismatch-case"]
+
+
+def foreign_record(how, key):
+    import json as _json
+    good = ref.sri("sha256", b"foreign payload")
+    obj = {"key": key, "integrity": good, "time": 4242, "size": 15, "metadata": None, "raw_metadata": None}
+    if how == "foreign-unknown-algo":
+        obj["integrity"] = "sha3-512-" + "A" * 86 + "=="
+    elif how == "foreign-empty-integrity":
+        obj["integrity"] = ""
+    elif how == "foreign-integrity-options":
+        obj["integrity"] = good + "?foo=bar"
+    elif how == "foreign-extra-field":
+        obj["version"] = 6
+        obj["tags"] = ["x"]
+    elif how == "foreign-missing-optional":
+        del obj["raw_metadata"]
+        del obj["metadata"]
+    elif how == "foreign-float-size":
+        obj["size"] = 15.0
+    elif how == "foreign-negative-size":
+        obj["size"] = -1
+    elif how == "foreign-bad-base64":
+        obj["integrity"] = "sha256-not*base64*at*all"
+    elif how == "foreign-integrity-number":
+        obj["integrity"] = 12345
+    elif how == "foreign-key-mismatch-case":
+        obj["key"] = key.swapcase() if key.swapcase() != key else key + "x"
+    return ref.record_bytes(_json.dumps(obj, separators=(",", ":"), ensure_ascii=False))
 
 
 def harness_step(st, cache, target=None, target_data=b""):
@@ -162,6 +199,10 @@ def harness_step(st, cache, target=None, target_data=b""):
         except OSError:
             return "absent"
         how = st["how"]
+        if how.startswith("foreign-"):
+            with open(p, "ab") as f:
+                f.write(foreign_record(how, st["key"]))
+            return how
         if how == "append-garbage":
             nb = b + b"\ngarbage line without tab"
         elif how == "append-badutf8":
